@@ -39,12 +39,24 @@ def run(cx, chk):
     chk.rule("C01.R2", "constructors: each inner list gets the capacity its accessor reports; size/caps >= 1; cap() is the sum of the bounds")
     chk.rule("C01.R3", "admit-guard (2Q/ARC): insert into a resident list only after a guaranteed resident removal or under sum < size")
     chk.rule("C01.R4", "one-partition: the caller's key enters list X only after it was looked up unsuccessfully in / removed from every other retained list")
+    chk.rule("C01.R6", "resize(n) makes n the enforced bound: self.cap := n on every path but the cap-unchanged early return, after evicting down to n")
     chk.rule("C01.R5", "observer agreement: len/contains/peek*/get* consult the same lists; is_empty/purge/remove touch all retained lists; len is their plain sum")
     for cfg, F in cx.cfgs():
         r1_r3(cx, chk, cfg, F)
         r4(cx, chk, cfg, F)
         r5(cx, chk, cfg, F)
         r2(cx, chk, cfg, F)
+        # R6: the bound cap() reports is the bound that was requested: resize stores it on every path that is not the cap-unchanged
+        # early return (shape rule shared with C06.R3)
+        from . import c06
+
+        class Relabel:
+            def ob(self_, rule, key, how="ok", sample=None):
+                chk.ob("C01.R6", key, how, sample)
+
+            def violation(self_, rule, key, msg, *a, **k):
+                chk.violation("C01.R6", key, msg, *a, **k)
+        c06.resize(cx, Relabel(), cfg, F)
 
 
 def r1_r3(cx, chk, cfg, F):
